@@ -35,6 +35,7 @@ def plan(tier, seed):
     cases += rowlib.gen_cases(G.additions(rng, 40 if quick else 400), 8, CFGS_Q, "add")
     cases += rowlib.gen_cases(G.marker_collisions(rng, 40 if quick else 400), 8, CFGS_Q, "marker")
     cases += rowlib.gen_cases(G.dative(rng, 48 if quick else 400), 8, CFGS_Q, "dative")
+    cases += rowlib.gen_cases(G.charge_only_imbalance(rng, 40 if quick else 300), 8, CFGS_Q, "charge_only")
     # large batches in which many rows (also at positions >= 10, >= 100) are rewritten by the reagent templates
     big = G.redox_family(rng, 60 if quick else 600) + G.deletions(rng, 30 if quick else 300)
     rng.shuffle(big)
